@@ -846,7 +846,7 @@ def section(run):
     stats = collections.defaultdict(collections.Counter)
     tmp = Path(tempfile.mkdtemp(prefix='c20-doc-'))
     try:
-        for _ in range(run.n(350, 5000)):
+        for _ in range(run.n(300, 5000)):
             gen = DocGen(run.rng, tmp).generate()
             line, out, nontrivial = one_document(gen)
             stats['resources-per-document'][min(len(gen.table), 20)] += 1
